@@ -20,6 +20,7 @@ const (
 	pkParam paramKind = iota
 	pkResult
 	pkLocal
+	pkRangeIdx // index of the element processed last by a range loop (-1 before the first)
 )
 
 type ClauseParam struct {
@@ -40,6 +41,7 @@ type Clause struct {
 	Wrapper       *ssa.Function
 	Params        []ClauseParam
 	CurrentParams bool // parameters denote current values (loop invariants, asserts), not entry values
+	LoopOrd       int  // for loop invariants: ordinal of the loop (rangeidx refers to its hidden index)
 	Pos           token.Pos
 }
 
@@ -81,6 +83,7 @@ type FuncSpec struct {
 	Havoc       bool
 	ModPkgs     []string
 	Ghost       bool
+	Uninterp    bool // assume func: the call is an uninterpreted function of its arguments, in code and in specs
 	IsProc      bool
 	Fn          *ssa.Function
 }
@@ -100,7 +103,7 @@ type ContractFile struct {
 	Imports []string
 }
 
-var keywordRe = regexp.MustCompile(`^(func|assume|ghost|spec|proc|lemma|import|requires|ensures|modifies|loop|invariant|decreases|safe|inline|overflow|float|alloc|assert|havoc)\b`)
+var keywordRe = regexp.MustCompile(`^(func|assume|ghost|spec|proc|lemma|import|requires|ensures|modifies|loop|invariant|decreases|safe|inline|overflow|float|alloc|assert|havoc|uninterpreted)\b`)
 var labelRe = regexp.MustCompile(`^([A-Za-z_][A-Za-z0-9_]*):([^:=].*)$`)
 
 func parseContractFile(path string) (*ContractFile, error) {
@@ -244,6 +247,7 @@ func parseContractFile(path string) (*ContractFile, error) {
 				}
 				cl := mkClause(rest, s.no, fmt.Sprintf("i%d", len(curLoop.Invariants)+1))
 				cl.CurrentParams = true
+				cl.LoopOrd = curLoop.Ordinal
 				curLoop.Invariants = append(curLoop.Invariants, cl)
 			case "decreases":
 				if curLoop == nil {
@@ -260,6 +264,8 @@ func parseContractFile(path string) (*ContractFile, error) {
 				cur.Overflow = true
 			case "havoc":
 				cur.Havoc = true
+			case "uninterpreted":
+				cur.Uninterp = true
 			case "float":
 				cur.FloatReal = strings.TrimSpace(rest) == "real"
 			case "alloc":
